@@ -127,10 +127,19 @@ impl SwiftField for Field57B {
         // Check for location
         if current_idx < lines.len() {
             let loc = lines[current_idx];
-            if !loc.is_empty() && loc.len() <= 35 {
-                parse_swift_chars(loc, "Field 57B location")?;
-                location = Some(loc.to_string());
+            if loc.len() > 35 {
+                return Err(ParseError::InvalidFormat {
+                    message: "Field 57B location exceeds 35 characters".to_string(),
+                });
             }
+            parse_swift_chars(loc, "Field 57B location")?;
+            location = Some(loc.to_string());
+            current_idx += 1;
+        }
+        if current_idx < lines.len() {
+            return Err(ParseError::InvalidFormat {
+                message: "Field 57B has more lines than party identifier and location".to_string(),
+            });
         }
 
         Ok(Field57B {
